@@ -1338,17 +1338,29 @@ def run(ctx, rep):
     rows = d3_table(ctx)
     cache = {}
     tally = {}
-    for s in sites:
+    # a site is identified by the function it is written in: code moved into a closure of the same function (an iterator
+    # adaptor instead of a loop) keeps its identity; ordinals run over the function body first, then its closures
+    renum = {}
+    order = sorted(range(len(sites)), key=lambda i: (sites[i]['fn'].split('::{closure')[0], '{closure' in sites[i]['fn'], sites[i]['fn'], sites[i]['what'], sites[i]['ord']))
+    seq = {}
+    for i in order:
+        s = sites[i]
+        parent = s['fn'].split('::{closure')[0]
+        k = (parent, s['what'], macro_of(s['span']))
+        seq[k] = seq.get(k, 0) + 1
+        renum[i] = (parent, seq[k])
+    for i, s in enumerate(sites):
         fn = s['f']
         t = s['term']
         what = s['what']
         short = what.split('::')[-1] if s['kind'] == 'call' else what
         mac = macro_of(s['span'])
-        construct = '%s#%d%s' % (short if s['kind'] == 'assert' else what.replace('core::', '').replace('alloc::', ''), s['ord'], (' in %s!' % mac) if mac else '')
+        keyfn, kord = renum[i]
+        construct = '%s#%d%s' % (short if s['kind'] == 'assert' else what.replace('core::', '').replace('alloc::', ''), kord, (' in %s!' % mac) if mac else '')
         loc = span_loc(s['span'])
         verdict = verdict_for(ctx, s, rows, cache)
         tally[verdict[1].split(':')[0].split('[')[0]] = tally.get(verdict[1].split(':')[0].split('[')[0], 0) + 1
-        rep.ob(verdict[0], 'R05.1', s['fn'], construct, verdict[1], loc)
+        rep.ob(verdict[0], 'R05.1', keyfn, construct, verdict[1] + ('' if keyfn == s['fn'] else ' [in %s]' % s['fn'].split('::', 2)[-1]), loc)
     rep.table('discharge_tally', tally)
     for s in sites[:5]:
         rep.sample({'fn': s['fn'], 'site': s['what'], 'loc': span_loc(s['span'])})
